@@ -499,8 +499,8 @@ func main() {
 	fmt.Println(x)
 }
 `, a, b, c, lit)}
-	case 25: // open finding F04-22: the results of a call assigned to two map entries
-		return srcCase{"call-results-to-map-entries", "call-results-to-map-entries", srcHead + fmt.Sprintf(`func f() (int, int) { return %d, %d }
+	case 25: // F04-22 (repaired by 7f288e3): the results of a call assigned to two map entries
+		return srcCase{"call-results-to-map-entries", "", srcHead + fmt.Sprintf(`func f() (int, int) { return %d, %d }
 
 func main() {
 	mp := map[string]int{}
@@ -508,8 +508,8 @@ func main() {
 	fmt.Println(mp)
 }
 `, a, b)}
-	case 26: // open finding F04-23: a host call among the operands of a return that permutes the named results
-		return srcCase{"return-host-call-and-named-result", "return-bincall-named-results", srcHead + fmt.Sprintf(`func g() (a string, b string) {
+	case 26: // F04-23 (repaired by 28d3d87): a host call among the operands of a return that permutes the named results
+		return srcCase{"return-host-call-and-named-result", "", srcHead + fmt.Sprintf(`func g() (a string, b string) {
 	a, b = "x%d", "y%d"
 	return fmt.Sprint(b), a
 }
@@ -518,9 +518,9 @@ func main() {
 	fmt.Println(g())
 }
 `, a, b)}
-	case 27: // open finding F04-24: a positional literal operand `(*pa)[lo:hi]`
+	case 27: // F04-24 (repaired by 790cfa6): a positional literal operand `(*pa)[lo:hi]`
 		lit := []string{"T{1, (*pa)[0:]}", "[][]int{(*pa)[:2]}", "T{2, (*pa)[1:2]}"}[rng.Intn(3)]
-		return srcCase{"literal-operand-slice-of-deref", "lit-operand-slice-of-deref", srcHead + fmt.Sprintf(`type T struct {
+		return srcCase{"literal-operand-slice-of-deref", "", srcHead + fmt.Sprintf(`type T struct {
 	A  int
 	Sl []int
 }
@@ -567,17 +567,19 @@ func main() {
 	fmt.Println(sh(c, d))
 }
 `, a, b, a, b, c, a, b, c)}
-	case 29: // open finding F04-25: a multi-assignment storing an interface-typed operand into an interface{} destination
+	case 29: // F04-25 (repaired by 8f0dcdc): a multi-assignment storing an interface-typed operand into an interface{} destination
 		body := []string{
 			"var a, b interface{} = %d, \"x\"\n\ta, b = b, a\n\tfmt.Println(a, b)",
 			"var a, b, c interface{} = %d, \"x\", 2.5\n\ta, b, c = b, c, a\n\tfmt.Println(a, b, c)",
 			"s := []interface{}{%d, \"x\"}\n\ts[0], s[1] = s[1], s[0]\n\tfmt.Println(s)",
 			"type T struct{ X, Y interface{} }\n\tv := T{%d, \"x\"}\n\tv.X, v.Y = v.Y, v.X\n\tfmt.Println(v)",
 			"var a, b interface{} = %d, \"x\"\n\tp := &a\n\ta, b = b, *p\n\tfmt.Println(a, b)",
-			"var u I = A(\"u%d\")\n\tvar c interface{}\n\tn := 0\n\tc, n = u, 1\n\tfmt.Println(c, n)",
+			// (the value is shown through its method: an I held by an interface{} variable and handed to fmt as such is shown as
+			// the interpreter's internal wrapper, also after a single assignment — a host-boundary matter of C07, not of this property)
+			"var u I = A(\"u%d\")\n\tvar c interface{}\n\tn := 0\n\tc, n = u, 1\n\tfmt.Println(c.(I).Str(), n)",
 		}[rng.Intn(6)]
-		return srcCase{"multiassign-into-empty-interface", "multiassign-iface-into-empty-interface", ifaceHead + "func main() {\n\t" + fmt.Sprintf(body, a) + "\n}\n"}
-	case 30: // open finding F04-26: a multi-assignment storing a concrete value into a destination of a non-empty interface type
+		return srcCase{"multiassign-into-empty-interface", "", ifaceHead + "func main() {\n\t" + fmt.Sprintf(body, a) + "\n}\n"}
+	case 30: // F04-26 (repaired by 8f0dcdc): a multi-assignment storing a concrete value into a destination of a non-empty interface type
 		body := []string{
 			"var a, b I\n\ta, b = A(\"a%d\"), A(\"b\")\n\tfmt.Println(sh(a, b))",
 			"var a, b I\n\ta, b = A(\"a%d\"), &B{2}\n\tfmt.Println(sh(a, b))",
@@ -585,7 +587,7 @@ func main() {
 			"var a I\n\tx := 1\n\ta, x = A(\"q%d\"), 2\n\tfmt.Println(sh(a), x)",
 			"var a, b I\n\tu, v := A(\"a%d\"), A(\"b\")\n\ta, b = u, v\n\tfmt.Println(sh(a, b))",
 		}[rng.Intn(5)]
-		return srcCase{"multiassign-concrete-into-interface", "multiassign-concrete-into-nonempty-interface", ifaceHead + "func namedConc() (a, b I) {\n\ta, b = A(\"a\"), A(\"b\")\n\treturn\n}\n\nfunc main() {\n\t" + fmt.Sprintf(body, a) + "\n}\n"}
+		return srcCase{"multiassign-concrete-into-interface", "", ifaceHead + "func namedConc() (a, b I) {\n\ta, b = A(\"a\"), A(\"b\")\n\treturn\n}\n\nfunc main() {\n\t" + fmt.Sprintf(body, a) + "\n}\n"}
 	default: // 26ad67e: local blank assignments get their own slots; blank range variables
 		return srcCase{"blank-assignments-and-blank-loop-variables", "", srcHead + fmt.Sprintf(`func main() {
 	x, s, f := %s, "s", func() int { return %d }
